@@ -371,6 +371,12 @@ def save_json(data, file):
     # Write to a temporary file and move it into place, so that the previous
     # contents survive if the process is stopped in the middle of writing.
     tmp_file = f'{file}.tmp'
+
+    # Always start from a new temporary file: a handle left open by an
+    # interrupted save may still flush its buffer into the old one.
+    if os.path.exists(tmp_file):
+        os.remove(tmp_file)
+
     if os.path.splitext(file)[-1] == '.json':
         with open(tmp_file, 'w') as f:
             json.dump(data, f, cls=NumpyEncoder)
